@@ -77,5 +77,6 @@ func factsC20(r *Repo) []Fact {
 		out = append(out, unknownFact("compileReturnsStoredErrFirst", "Bool", "false", "compose", "method graph.compile not found"))
 		out = append(out, unknownFact("compileChecksNodeTypes", "Bool", "false", "compose", "method graph.compile not found"))
 	}
+	out = append(out, factsC20Wf(r)...)
 	return out
 }
